@@ -47,7 +47,10 @@ CLAIMED = {
          "they are when the run has returned; a refreshed source holds what its producer computes from scratch).", "4/C03"),
  "C04": ("proof", "Lean 4 proof (place-counting invariant) + trace refinement check",
          "No node is begun or enqueued twice in any reachable state, every enqueued node is in exactly one place, only graph nodes run "
-         "(C04_once, C04_enqueued_once, C04_place, C04_only_graph_nodes).", "4/C04"),
+         "(C04_once, C04_enqueued_once, C04_place, C04_only_graph_nodes). With a registry: `Needed` (stated on the user's plan: the requested output, "
+         "an out-of-date stored value, or what feeds one of them directly through nodes without a store) characterises the calls that are part of "
+         "the executed plan; in every reachable state a call has begun only if it is needed, and a normally returning run has executed exactly the "
+         "needed calls (C04_only_needed, C04_runs_exactly_needed).", "4/C04"),
  "C05": ("proof", "Lean 4 proof (stale check = declarative out-of-date relation; idempotence of a complete run; stale check and run on the engine model) + differential history replay",
          "isStale (the model of _get_stale_nodes over the regenerated comparison) holds exactly for the nodes that are out of date in the declarative sense "
          "(C05_stale_spec), is inherited downstream, is monotone in fresh_time, and is empty after a complete run (C05_idempotent). The harness checks on the "
